@@ -377,32 +377,20 @@ fn cmd_keys(c: &Command) -> Vec<String> {
 }
 
 /// independent Rust reading of the supported fragment (`Glue.unsupported`, client events):
-/// `pre`/`post` = served keyspace before/after, `snap` = replication state before
-fn unsupported_client(c: &Command, pre: &(String, Dump), post: &(String, Dump), snap: &std::collections::HashMap<String, redis_sim::replication::state::ReplicatedValue>) -> &'static str {
-    let has_ttl = |k: &str| pre.1.get(k).map(|e| e.0 >= 0).unwrap_or(false);
+/// `pre`/`post` = served keyspace before/after
+fn unsupported_client(c: &Command, pre: &(String, Dump), post: &(String, Dump)) -> &'static str {
     match c {
-        Command::Set { key, exat, pxat, keepttl, .. } => {
-            if exat.is_some() || pxat.is_some() || (*keepttl && has_ttl(key)) {
-                "set-expiry-not-recorded"
-            } else {
-                "ok"
-            }
-        }
-        Command::Del(ks) => {
-            if ks.len() >= 2 && ks[..ks.len() - 1].iter().any(|k| snap.contains_key(k)) {
-                "multi-key-del"
-            } else {
-                "ok"
-            }
-        }
-        Command::GetSet(..) | Command::HSet(..) | Command::HDel(..) | Command::HIncrBy(..) => "ok",
-        Command::Incr(k) | Command::Decr(k) | Command::IncrBy(k, _) | Command::DecrBy(k, _) | Command::Append(k, _) => {
-            if has_ttl(k) {
-                "modify-keeps-ttl"
-            } else {
-                "ok"
-            }
-        }
+        Command::Set { .. }
+        | Command::Del(_)
+        | Command::GetSet(..)
+        | Command::HSet(..)
+        | Command::HDel(..)
+        | Command::HIncrBy(..)
+        | Command::Incr(_)
+        | Command::Decr(_)
+        | Command::IncrBy(..)
+        | Command::DecrBy(..)
+        | Command::Append(..) => "ok",
         _ => {
             if pre.0 != post.0 {
                 "non-replicated-writer"
@@ -414,7 +402,7 @@ fn unsupported_client(c: &Command, pre: &(String, Dump), post: &(String, Dump), 
 }
 
 /// … delivery events: `merged` = the key's value in the replication state after the merge
-fn unsupported_deliver(delta: &MRv, merged: Option<&MRv>, pre: &Dump, key: &str) -> &'static str {
+fn unsupported_deliver(delta: &MRv, merged: Option<&MRv>) -> &'static str {
     if !delta.wf() {
         return "bad-delta";
     }
@@ -424,8 +412,6 @@ fn unsupported_deliver(delta: &MRv, merged: Option<&MRv>, pre: &Dump, key: &str)
         MCrdt::H(h) => {
             if !h.values().all(proper) {
                 "bad-delta"
-            } else if pre.get(key).map(|e| !e.1.starts_with("H ")).unwrap_or(false) {
-                "hash-over-non-hash"
             } else {
                 "ok"
             }
@@ -496,10 +482,28 @@ impl GCl {
 
     async fn client(&mut self, out: &mut Out, i: usize, c: Command) -> RespValue {
         let pre = dump(&self.hs[i]).await;
-        let snap = self.hs[i].get_snapshot().await;
-        let (r, d) = self.hs[i].execute(c.clone()).await;
+        // what `ReplicatedShardedState::execute` sends to the shard actor: a multi-key DEL is one
+        // DEL per key (replies summed), everything else is the command itself
+        let (r, ds): (RespValue, Vec<ReplicationDelta>) = match &c {
+            Command::Del(ks) if ks.len() > 1 => {
+                let mut n = 0i64;
+                let mut ds = Vec::new();
+                for k in ks {
+                    let (r1, d1) = self.hs[i].execute(Command::Del(vec![k.clone()])).await;
+                    if let RespValue::Integer(x) = r1 {
+                        n += x;
+                    }
+                    ds.extend(d1);
+                }
+                (RespValue::Integer(n), ds)
+            }
+            _ => {
+                let (r, d) = self.hs[i].execute(c.clone()).await;
+                (r, d.into_iter().collect())
+            }
+        };
         let post = dump(&self.hs[i]).await;
-        let sup = unsupported_client(&c, &pre, &post, &snap);
+        let sup = unsupported_client(&c, &pre, &post);
         let name = format!("{:?}", c).split(|ch: char| !ch.is_alphanumeric()).next().unwrap_or("").to_string();
         out.count(&format!("b:cmd:{}", name));
         out.count(&format!("b:sup:{}", sup));
@@ -511,23 +515,17 @@ impl GCl {
         self.cmds += 1;
         if sup != "ok" {
             self.bad.push((i, sup, cmd_keys(&c)));
-        } else if let Command::GetSet(k, _) = &c {
-            // inside the supported fragment of the MODEL (Redis clears the deadline); the real
-            // executor keeps it (C01:getset-keeps-deadline), so the node then serves a TTL its
-            // replication state does not have: that is C01's finding surfacing here
-            if pre.1.get(k).map(|e| e.0 >= 0).unwrap_or(false) && !matches!(r, RespValue::Error(_)) {
-                self.bad.push((i, "C01:getset-keeps-deadline", vec![k.clone()]));
-            }
         }
-        let dtext = match &d {
-            Some(d) => format!("{} {}", hex(d.key.as_bytes()), MRv::from_real(&d.value).show()),
-            None => "none".into(),
+        let dtext = if ds.is_empty() {
+            "none".to_string()
+        } else {
+            ds.iter().map(|d| format!("{} {}", hex(d.key.as_bytes()), MRv::from_real(&d.value).show())).collect::<Vec<_>>().join(" ; ")
         };
         out.op(
             format!("GC {} {} ;; {}", i, enc, post.0),
             format!("{} | {} | sup={} delta={}", reply_text(&r, reply_order(&c)), post.0, sup, dtext),
         );
-        if let Some(d) = d {
+        for d in ds {
             out.count("b:delta");
             self.sent.push((i, d));
         }
@@ -539,13 +537,12 @@ impl GCl {
         if self.sent[idx].0 == j {
             return;
         }
-        let pre = dump(&self.hs[j]).await;
         let d = self.sent[idx].1.clone();
         self.hs[j].apply_remote_delta(d.clone());
         let snap = self.hs[j].get_snapshot().await;
         let post = dump(&self.hs[j]).await;
         let merged = snap.get(&d.key).map(MRv::from_real);
-        let sup = unsupported_deliver(&MRv::from_real(&d.value), merged.as_ref(), &pre.1, &d.key);
+        let sup = unsupported_deliver(&MRv::from_real(&d.value), merged.as_ref());
         out.count("b:deliver");
         out.count(&format!("b:sup:{}", sup));
         self.applied.insert((j, idx));
@@ -562,12 +559,11 @@ impl GCl {
 
     /// a crafted delta that no node issued (boundary of the supported fragment)
     async fn crafted(&mut self, out: &mut Out, j: usize, key: &str, v: &MRv) {
-        let pre = dump(&self.hs[j]).await;
         self.hs[j].apply_remote_delta(ReplicationDelta::new(key.to_string(), v.to_real(), ReplicaId::new(v.r)));
         let snap = self.hs[j].get_snapshot().await;
         let post = dump(&self.hs[j]).await;
         let merged = snap.get(key).map(MRv::from_real);
-        let sup = unsupported_deliver(v, merged.as_ref(), &pre.1, key);
+        let sup = unsupported_deliver(v, merged.as_ref());
         out.count("b:crafted-delta");
         out.count(&format!("b:sup:{}", sup));
         self.hist.push(format!("deliver crafted delta '{}' = {} to node{}", key, v.show(), j));
@@ -750,15 +746,15 @@ fn scenarios() -> Vec<(&'static str, usize, Vec<St>, Vec<&'static str>)> {
         ("hset-on-string", 2, vec![C(0, Command::set("k".into(), s("v"))), C(0, hset1("k", "f", "1")), Sync], vec!["k"]),
         ("del-then-hset", 2, vec![C(0, hset1("h", "f", "1")), C(0, Command::del("h".into())), C(0, hset1("h", "g", "2")), Sync], vec!["h"]),
         ("set-clears-ttl", 2, vec![C(0, set_opts("e", "v", false, false, Some(100), None)), C(0, Command::set("e".into(), s("w"))), Sync], vec!["e"]),
-        // excluded classes
+        // excluded classes (x:) and the classes repaired by fix: commits (must hold now)
         ("x:non-replicated-writer", 2, vec![C(0, Command::MSet(vec![("m".into(), s("w"))])), Sync], vec!["m"]),
-        ("x:set-pxat", 2, vec![C(0, Command::Set { key: "a".into(), value: s("v"), ex: None, px: None, exat: None, pxat: Some(5000), nx: false, xx: false, get: false, keepttl: false }), Sync], vec!["a"]),
-        ("x:set-keepttl", 2, vec![C(0, set_opts("a", "v", false, false, Some(100), None)), C(0, Command::Set { key: "a".into(), value: s("w"), ex: None, px: None, exat: None, pxat: None, nx: false, xx: false, get: false, keepttl: true }), Sync], vec!["a"]),
-        ("x:incr-with-ttl", 2, vec![C(0, set_opts("c", "5", false, false, Some(100), None)), C(0, Command::Incr("c".into())), Sync], vec!["c"]),
-        ("x:hash-over-string", 2, vec![C(0, Command::set("x".into(), s("v"))), C(1, hset1("x", "f", "1")), Sync], vec!["x"]),
+        ("set-pxat", 2, vec![C(0, Command::Set { key: "a".into(), value: s("v"), ex: None, px: None, exat: None, pxat: Some(5000), nx: false, xx: false, get: false, keepttl: false }), Sync], vec!["a"]),
+        ("set-keepttl", 2, vec![C(0, set_opts("a", "v", false, false, Some(100), None)), C(0, Command::Set { key: "a".into(), value: s("w"), ex: None, px: None, exat: None, pxat: None, nx: false, xx: false, get: false, keepttl: true }), Sync], vec!["a"]),
+        ("incr-with-ttl", 2, vec![C(0, set_opts("c", "5", false, false, Some(100), None)), C(0, Command::Incr("c".into())), Sync], vec!["c"]),
+        ("hash-over-string", 2, vec![C(0, Command::set("x".into(), s("v"))), C(1, hset1("x", "f", "1")), Sync], vec!["x"]),
         ("x:expiry-zero", 2, vec![X(0, "z", lww_rv(Some("v"), 5, 9, false, Some(0)))], vec!["z"]),
         ("x:empty-register", 2, vec![C(0, Command::set("z".into(), s("v"))), X(0, "z", lww_rv(None, 5, 9, false, None))], vec!["z"]),
-        ("x:multi-key-del", 2, vec![C(0, Command::set("a".into(), s("1"))), C(0, Command::set("b".into(), s("2"))), Sync, C(0, Command::Del(vec!["a".into(), "b".into()])), Sync], vec!["a", "b"]),
+        ("multi-key-del", 2, vec![C(0, Command::set("a".into(), s("1"))), C(0, Command::set("b".into(), s("2"))), Sync, C(0, Command::Del(vec!["a".into(), "b".into()])), Sync], vec!["a", "b"]),
         // ApplyRecoveredState: a checkpoint into a fresh actor, then normal traffic
         ("recover-checkpoint", 2, vec![
             R(0, "a", lww_rv(Some("v"), 4, 2, false, Some(5000))), R(0, "h", hash_rv(&[("f", Some("1"), 1), ("g", None, 2)], 2)),
@@ -844,6 +840,7 @@ fn gen_cmd(rng: &mut Rng) -> Command {
 }
 
 async fn part_b(out: &mut Out, rng: &mut Rng, n_random: u64) {
+    system_scenarios(out).await;
     for (name, n, steps, keys) in scenarios() {
         let mut cl = GCl::new(out, n, false);
         for st in steps {
@@ -904,11 +901,56 @@ async fn part_b(out: &mut Out, rng: &mut Rng, n_random: u64) {
 /// commands that are outside the supported fragment whatever the state (used to keep two thirds
 /// of the random histories inside it)
 fn unsupported_syntactic(c: &Command) -> bool {
-    match c {
-        Command::Set { exat, pxat, .. } => exat.is_some() || pxat.is_some(),
-        Command::MSet(_) | Command::SetNx(..) | Command::GetDel(_) | Command::Expire { .. } | Command::Persist(_) | Command::Rename(..) | Command::RPush(..) | Command::MSetNx(_) | Command::FlushAll => true,
-        Command::Del(ks) => ks.len() > 1,
-        _ => false,
+    matches!(
+        c,
+        Command::MSet(_) | Command::SetNx(..) | Command::GetDel(_) | Command::Expire { .. } | Command::Persist(_) | Command::Rename(..) | Command::RPush(..) | Command::MSetNx(_) | Command::FlushAll
+    )
+}
+
+/// system level: two real `ReplicatedShardedState`s (16 shard actors each); the deltas that
+/// `execute` ships are captured through the delta sink and applied to the peer.  Oracle only —
+/// this is the entry point that splits a multi-key DEL.
+async fn system_scenarios(out: &mut Out) {
+    use redis_sim::production::ReplicatedShardedState;
+    use redis_sim::replication::ReplicationConfig;
+    use redis_sim::streaming::delta_sink_channel;
+    let mk = |id: u64| {
+        let mut st = ReplicatedShardedState::new(ReplicationConfig { replica_id: id, ..ReplicationConfig::default() });
+        let (tx, rx) = delta_sink_channel();
+        st.set_delta_sink(tx);
+        (st, rx)
+    };
+    let (a, arx) = mk(1);
+    let (b, brx) = mk(2);
+    let keys = ["a", "b", "c", "dd", "e1"];
+    let mut hist: Vec<String> = Vec::new();
+    for (i, k) in keys.iter().enumerate() {
+        a.execute(Command::set(k.to_string(), s(&format!("{}", i)))).await;
+        hist.push(format!("A: SET {} {}", k, i));
+    }
+    b.apply_remote_deltas(arx.drain());
+    // multi-key DEL whose keys live on different shards, the last one never written
+    let r = a.execute(Command::Del(vec!["a".into(), "b".into(), "dd".into(), "zz".into()])).await;
+    hist.push("A: DEL a b dd zz".into());
+    b.apply_remote_deltas(arx.drain());
+    let _ = brx.drain();
+    let mut bad = Vec::new();
+    if !matches!(r, RespValue::Integer(3)) {
+        bad.push(format!("reply {:?}, expected 3", r));
+    }
+    for k in keys {
+        let ga = a.execute(Command::Get(k.to_string())).await;
+        let gb = b.execute(Command::Get(k.to_string())).await;
+        let want_nil = k == "a" || k == "b" || k == "dd";
+        let nil = |x: &RespValue| matches!(x, RespValue::BulkString(None));
+        if nil(&ga) != want_nil || nil(&gb) != want_nil {
+            bad.push(format!("GET {}: A {:?}, B {:?}", k, ga, gb));
+        }
+    }
+    out.count(if bad.is_empty() { "b:system:multi-key-del:holds" } else { "b:system:multi-key-del:fails" });
+    out.case("B:system:multi-key-del", true);
+    if !bad.is_empty() {
+        out.violation("C06:glue:multi-key-del", &format!("ReplicatedShardedState::execute: a multi-key DEL is not deleted / replicated key by key: {}", bad.join("; ")), json!({"history": hist}));
     }
 }
 
